@@ -1,5 +1,6 @@
 (* C19 — Text importers are memory-safe on any input and round-trip exported data.
-   Only statements + `exact`; proofs in C19Proofs.v / C19RoundTrip.v, executable model in C19Model.v.
+   Only statements + `exact`; proofs in C19Proofs.v / C19RoundTrip.v / C19RoundTrip2.v / C19SvmRoundTrip.v / C19Batches.v,
+   executable model in C19Model.v.
 
    PROVED (about the model, for every byte string, separator, comment character, label position, batch size):
    every importer overload returns either a well-formed dataset (all records of the reported dimension,
@@ -10,14 +11,34 @@
    indices rejected, no record -> empty dataset, shape = element dimension; the theorems keep the name
    `_repaired_`).  The LibSVM importer as coded BEFORE these commits reaches Fault: C19_F10_..., C19_F11_...
    (findings F10, F11; kept as regression witnesses about the `_coded` definitions of the model).
+   PROVED, round trip (C19RoundTrip.v, C19RoundTrip2.v, C19SvmRoundTrip.v; the text is the one the exporter model prints,
+   numbers are tokens): import (export d) returns every element of d, in order, with the dimension of d, for
+   - unlabelled and regression CSV data, separator CHARACTER or WHITE-SPACE separator (blank other than a line end);
+   - CLASSIFICATION CSV data, label first or last, both kinds of separator, with the label normalisation as coded:
+     the imported label is  label - (smallest label of the dataset); labels come back unchanged IFF class 0 occurs
+     (otherwise: known deviation C19-LABELSHIFT, by design of the importers);
+   - LibSVM data (exportSparseData -> importSparseData as repaired: indices strictly increasing, zero-based detection,
+     dimension inference), dense and compressed storage, regression and classification (2-class datasets written as
+     -1/+1, others as label+1; imported label = label - smallest label, unchanged IFF class 0 occurs): the stored
+     (index, value) lists come back exactly; the dimension is the least d >= highestIndex containing every stored index.
+     What the format preserves: a dense element stores all components (zeros included), so its dimension comes back;
+     a compressed element stores non-zeros only, so TRAILING ZERO FEATURES ARE LOST unless highestIndex is passed
+     (C19_libsvm_roundtrip_example shows dimension 3 -> 1, and 3 with highestIndex = 3); explicit zeros of a
+     compressed vector and the value digits beyond the printed precision are not carried by the text either.
+   PROVED, batch structure (C19Batches.v, reusing C03's opt_sizes_spec): every CSV importer returns batches whose sizes
+   ARE detail::optimalBatchSizes(n, maximumBatchSize) (balanced, none empty or too large, ceil(n/m) batches); the
+   LibSVM importers return full batches of batchSize followed by the remainder (LabeledData(n, blueprint, batchSize)),
+   which is a different partition (C19_partitions_differ).
    COMPARED on every run (tools/c19.py): model = compiled importers on generated files (exact on numbers
-   with <= 15 digits), exporters = printers.  MONITORED only: memory safety / termination / exception type
-   of the compiled Spirit parsers on arbitrary bytes (ASan+UBSan, SIGALRM); token <-> double conversion;
-   LibSVM export round trip.  The full-strength statement "for all byte strings the C++ importer never reads
+   with <= 15 digits), exporters = printers incl. exportSparseData (text compared byte for byte, re-imported dataset
+   compared line-exact).  MONITORED only: memory safety / termination / exception type
+   of the compiled Spirit parsers on arbitrary bytes (ASan+UBSan, SIGALRM); token <-> double conversion (a double ->
+   its printed token and back: outside the model, compared in the OCaml driver with printf/strtod).
+   The full-strength statement "for all byte strings the C++ importer never reads
    or writes out of bounds" is a statement about compiled code and is not a Coq theorem here: the theorems are
    named _partial. *)
 From Coq Require Import List Arith ZArith NArith Bool.
-From SharkV Require Import ListAux C03Model C19Model C19Proofs C19RoundTrip.
+From SharkV Require Import ListAux C03Model C03Proofs C19Model C19Proofs C19RoundTrip C19RoundTrip2 C19SvmRoundTrip C19Batches.
 Import ListNotations.
 
 Theorem C19_csv_data_import_total_partial :
@@ -109,8 +130,7 @@ Print Assumptions C19_F11_empty_input_fault_as_coded.
    precision.  PROVED below for unlabeled and regression datasets written with a separator CHARACTER (chars_ok: not a
    digit, not white space, different from the comment character; comment character not a digit/sign/newline), numbers
    as printed scientific tokens (sci_tok: [-]d.ddd..e[+-]dd), any label position, any batch size >= 1: hence _partial.
-   Classification files, white-space separators and the LibSVM format are compared/monitored by tools/c19.py only
-   (the classification importer re-bases labels on the smallest label: see the finding label-shift). *)
+   The theorems further below extend this to white-space separators, classification files and the LibSVM format. *)
 Theorem C19_export_import_roundtrip_data_partial :
   forall sep cm, chars_ok sep cm ->
   forall rows d m, 1 <= m -> 1 <= d -> rows <> [] ->
@@ -148,3 +168,145 @@ Example C19_example_ragged_exc : csv_import_data 44%N 35%N 1 (bytes_of [49;44;50
 Proof. exact example_ragged_exc. Qed.
 Example C19_example_max_batch_zero_faults : csv_import_data 44%N 35%N 0 [49%N; 10%N] = Fault.
 Proof. exact csv_max_batch_zero_faults. Qed.
+
+(* ---- round trip, second part: white-space separators, classification files, LibSVM ---- *)
+(* sep_ok: separator character as above, or a blank that is not a line end (space, tab, VT, FF) *)
+Theorem C19_export_import_roundtrip_data_any_separator_partial :
+  forall sep cm rows d m, sep_ok sep cm -> 1 <= m -> 1 <= d -> rows <> [] ->
+  Forall (fun r => length r = d /\ Forall sci_tok r) rows ->
+  exists ds, csv_import_data sep cm m (export_data sep rows) = Ok ds /\
+             map snd (ds_elems ds) = rows /\ ds_dim ds = Z.of_nat d /\
+             opt_sizes (length rows) m = Some (map (@length _) (ds_batches ds)).
+Proof. exact data_roundtrip_any. Qed.
+Print Assumptions C19_export_import_roundtrip_data_any_separator_partial.
+
+Theorem C19_export_import_roundtrip_regression_any_separator_partial :
+  forall sep cm first nout rows d m, sep_ok sep cm -> 1 <= m -> 1 <= nout -> 1 <= d -> rows <> [] ->
+  Forall (fun r => length (fst r) = nout /\ length (snd r) = d /\ Forall sci_tok (fst r) /\ Forall sci_tok (snd r)) rows ->
+  exists ds, csv_import_reg first nout sep cm m (export_reg first sep rows) = Ok ds /\
+             ds_elems ds = rows /\ ds_dim ds = Z.of_nat d /\
+             opt_sizes (length rows) m = Some (map (@length _) (ds_batches ds)).
+Proof. exact reg_roundtrip_any. Qed.
+Print Assumptions C19_export_import_roundtrip_regression_any_separator_partial.
+
+(* classification: cls_sep_ok = separator character other than '.', or a blank; labels below 2^31; label first/last.
+   Imported label = exported label - smallest exported label. *)
+Theorem C19_export_import_roundtrip_classification_partial :
+  forall sep cm first rows d m, cls_sep_ok sep cm -> 1 <= m -> 1 <= d -> rows <> [] ->
+  Forall (fun r => (fst r <= 2147483647)%N /\ length (snd r) = d /\ Forall sci_tok (snd r)) rows ->
+  exists ds mn, csv_import_cls first sep cm m (export_cls first sep rows) = Ok ds /\
+    In mn (map fst rows) /\ (forall l, In l (map fst rows) -> (mn <= l)%N) /\
+    ds_elems ds = map (fun r => ((Z.of_N (fst r) - Z.of_N mn)%Z, snd r)) rows /\
+    ds_dim ds = Z.of_nat d /\
+    opt_sizes (length rows) m = Some (map (@length _) (ds_batches ds)).
+Proof. exact cls_roundtrip. Qed.
+Print Assumptions C19_export_import_roundtrip_classification_partial.
+
+Theorem C19_export_import_roundtrip_classification_labels_iff_class0_partial :
+  forall sep cm first rows d m, cls_sep_ok sep cm -> 1 <= m -> 1 <= d -> rows <> [] ->
+  Forall (fun r => (fst r <= 2147483647)%N /\ length (snd r) = d /\ Forall sci_tok (snd r)) rows ->
+  exists ds, csv_import_cls first sep cm m (export_cls first sep rows) = Ok ds /\
+    map snd (ds_elems ds) = map snd rows /\
+    (map fst (ds_elems ds) = map (fun r => Z.of_N (fst r)) rows <-> In 0%N (map fst rows)).
+Proof. exact cls_roundtrip_labels. Qed.
+Print Assumptions C19_export_import_roundtrip_classification_labels_iff_class0_partial.
+
+(* LibSVM.  reg_ok / cls_ok: label token well formed (tok_ok: any [-]digits[.digits][e[+-]digits] shape) resp. label
+   below 2^31 - 1; stored indices of an element strictly increasing and below 2^32 - 1, values well-formed tokens.
+   highestIndex hi is 0 (infer) or at least every one-based index.  zelem: the element as (index, token) list.
+   dim_spec hi els d: d is the least value >= hi with every stored index below d. *)
+Theorem C19_libsvm_export_import_roundtrip_regression_partial :
+  forall compressed hi bsz rows, rows <> [] -> Forall reg_ok rows -> (0 <= hi)%Z ->
+  (hi = 0%Z \/ forall r i x, In r rows -> In (i, x) (snd r) -> (Z.of_N i + 1 <= hi)%Z) ->
+  exists ds, svm_import_reg compressed hi bsz (export_svm_reg rows) = Ok ds /\
+    ds_elems ds = map (fun r => (fst r, zelem (snd r))) rows /\
+    map (@length _) (ds_batches ds) = init_sizes (length rows) bsz /\
+    dim_spec hi (map snd rows) (ds_dim ds).
+Proof. exact svm_reg_roundtrip. Qed.
+Print Assumptions C19_libsvm_export_import_roundtrip_regression_partial.
+
+Theorem C19_libsvm_export_import_roundtrip_classification_partial :
+  forall compressed hi bsz rows, rows <> [] -> Forall cls_ok rows -> (0 <= hi)%Z ->
+  (hi = 0%Z \/ forall r i x, In r rows -> In (i, x) (snd r) -> (Z.of_N i + 1 <= hi)%Z) ->
+  exists ds mn, svm_import_cls compressed hi bsz (export_svm_cls rows) = Ok ds /\
+    In mn (map fst rows) /\ (forall l, In l (map fst rows) -> (mn <= l)%N) /\
+    ds_elems ds = map (fun r => ((Z.of_N (fst r) - Z.of_N mn)%Z, zelem (snd r))) rows /\
+    map (@length _) (ds_batches ds) = init_sizes (length rows) bsz /\
+    dim_spec hi (map snd rows) (ds_dim ds).
+Proof. exact svm_cls_roundtrip. Qed.
+Print Assumptions C19_libsvm_export_import_roundtrip_classification_partial.
+
+Theorem C19_libsvm_export_import_roundtrip_labels_iff_class0_partial :
+  forall compressed hi bsz rows, rows <> [] -> Forall cls_ok rows -> (0 <= hi)%Z ->
+  (hi = 0%Z \/ forall r i x, In r rows -> In (i, x) (snd r) -> (Z.of_N i + 1 <= hi)%Z) ->
+  exists ds, svm_import_cls compressed hi bsz (export_svm_cls rows) = Ok ds /\
+    map snd (ds_elems ds) = map (fun r => zelem (snd r)) rows /\
+    (map fst (ds_elems ds) = map (fun r => Z.of_N (fst r)) rows <-> In 0%N (map fst rows)).
+Proof. exact svm_cls_roundtrip_labels. Qed.
+Print Assumptions C19_libsvm_export_import_roundtrip_labels_iff_class0_partial.
+
+(* dimension: dense elements (all n components stored) come back with dimension n; with highestIndex >= every
+   one-based index the dimension is highestIndex *)
+Theorem C19_libsvm_roundtrip_dimension_dense :
+  forall els n d, els <> [] -> 1 <= n ->
+  (forall e, In e els -> map fst e = map N.of_nat (seq 0 n)) -> dim_spec 0 els d -> d = Z.of_nat n.
+Proof. exact dim_spec_dense. Qed.
+Print Assumptions C19_libsvm_roundtrip_dimension_dense.
+
+Theorem C19_libsvm_roundtrip_dimension_highest_index :
+  forall els hi d, (forall e i x, In e els -> In (i, x) e -> (Z.of_N i + 1 <= hi)%Z) -> dim_spec hi els d -> d = hi.
+Proof. exact dim_spec_hi. Qed.
+Print Assumptions C19_libsvm_roundtrip_dimension_highest_index.
+
+(* ---- batch structure ---- *)
+(* opt_batched m bs: the sizes of bs are optimalBatchSizes(number of elements, m) *)
+Theorem C19_csv_import_batches_are_optimalBatchSizes :
+  forall sep cm m s, 1 <= m ->
+  (forall d, csv_import_data sep cm m s = Ok d -> opt_batched m (ds_batches d)) /\
+  (forall first nout d, csv_import_reg first nout sep cm m s = Ok d -> opt_batched m (ds_batches d)) /\
+  (forall first d, csv_import_cls first sep cm m s = Ok d -> opt_batched m (ds_batches d)) /\
+  (forall (T : Type) (lexT : list byte -> option (T * list byte)) d,
+     lift (read_scalars cm lexT s) (fun v => post_scalar v m) = Ok d -> opt_batched m (ds_batches d)).
+Proof. exact csv_import_batches. Qed.
+Print Assumptions C19_csv_import_batches_are_optimalBatchSizes.
+
+Theorem C19_optimal_batches_properties :
+  forall (A : Type) m (bs : list (list A)), opt_batched m bs ->
+  (forall b, In b bs -> 1 <= length b <= m) /\
+  (forall b b', In b bs -> In b' bs -> length b <= length b' + 1) /\
+  length bs = (if length (concat bs) =? 0 then 0 else ceil_div (length (concat bs)) m).
+Proof. exact @opt_batched_props. Qed.
+Print Assumptions C19_optimal_batches_properties.
+
+(* init_batched b bs: no batch for no element, else the sizes are init_sizes n b (b, b, .., remainder; one batch for b = 0) *)
+Theorem C19_libsvm_import_batches :
+  forall compressed hi bsz s,
+  (forall d, svm_import_cls compressed hi bsz s = Ok d -> init_batched bsz (ds_batches d)) /\
+  (forall d, svm_import_reg compressed hi bsz s = Ok d -> init_batched bsz (ds_batches d)).
+Proof. exact svm_import_batches. Qed.
+Print Assumptions C19_libsvm_import_batches.
+
+(* satisfiability of the new hypotheses and concrete instances *)
+Example C19_separators_ok : cls_sep_ok 44%N 35%N /\ cls_sep_ok 32%N 35%N /\ ws_ok 9%N 35%N /\ sep_ok 32%N 35%N.
+Proof. exact (conj cls_sep_ok_comma (conj cls_sep_ok_space (conj ws_ok_tab sep_ok_space))). Qed.
+(* labels {0,2} with a blank, label last: unchanged;  labels {1,2} with a comma, label first: re-based to {0,1} *)
+Example C19_classification_roundtrip_example :
+  csv_import_cls false 32%N 35%N 2 (export_cls false 32%N [(0%N, [tok_1_5]); (2%N, [tok_m2_25em3])]) =
+    Ok (mkDs [[(0%Z, [tok_1_5]); (2%Z, [tok_m2_25em3])]] 1) /\
+  csv_import_cls true 44%N 35%N 2 (export_cls true 44%N [(1%N, [tok_1_5]); (2%N, [tok_m2_25em3])]) =
+    Ok (mkDs [[(0%Z, [tok_1_5]); (1%Z, [tok_m2_25em3])]] 1).
+Proof. exact cls_roundtrip_example. Qed.
+Example C19_libsvm_tokens_ok : tok_ok tok_0_25 /\ tok_ok tok_m3 /\ tok_ok tok_1em05.
+Proof. exact tok_examples_ok. Qed.
+(* a compressed element of a 3-dimensional dataset with one stored entry: dimension 1, or 3 with highestIndex = 3;
+   two classes {0,1}: written -1/+1, read back {0,1};  one class {1,1}: read back {0,0} (label shift) *)
+Example C19_libsvm_roundtrip_example :
+  svm_import_reg true 0 0 (export_svm_reg [(tok_m3, [(0%N, tok_0_25)])]) = Ok (mkDs [[(tok_m3, [(0%Z, tok_0_25)])]] 1) /\
+  svm_import_reg true 3 0 (export_svm_reg [(tok_m3, [(0%N, tok_0_25)])]) = Ok (mkDs [[(tok_m3, [(0%Z, tok_0_25)])]] 3) /\
+  svm_import_cls false 0 2 (export_svm_cls [(0%N, [(0%N, tok_0_25); (1%N, tok_1em05)]); (1%N, [(0%N, tok_m3); (1%N, tok_0_25)])]) =
+    Ok (mkDs [[(0%Z, [(0%Z, tok_0_25); (1%Z, tok_1em05)]); (1%Z, [(0%Z, tok_m3); (1%Z, tok_0_25)])]] 2) /\
+  svm_import_cls false 0 2 (export_svm_cls [(1%N, [(0%N, tok_0_25)]); (1%N, [(0%N, tok_m3)])]) =
+    Ok (mkDs [[(0%Z, [(0%Z, tok_0_25)]); (0%Z, [(0%Z, tok_m3)])]] 1).
+Proof. exact svm_examples. Qed.
+Example C19_partitions_differ : opt_sizes 7 3 = Some [3; 2; 2] /\ init_sizes 7 3 = [3; 3; 1].
+Proof. exact partitions_differ. Qed.
